@@ -323,6 +323,8 @@ def _body_entropy(which, variant):
         from vlib import sym, symops as so
         if variant == "conditional":
             df, keys, feats = _table(sym, 4, nkeys=2, nfeat=2, free2=())
+        elif variant == "conditional_joint":
+            df, keys, feats = _table(sym, 4, nkeys=2, nfeat=2, fixed_keys=[0, 0, 1, 1], free2=(0, 1, 2, 3))
         else:
             df, keys, feats = _table(sym, 4, nkeys=2, nfeat=2, fixed_keys=[0, 0, 1, 1], free2=(1, 2) if variant == "joint" else ())
         base = sym.sym_real("base", lo=0)
@@ -335,6 +337,8 @@ def _body_entropy(which, variant):
                 got, pcv = entropy.renyi2_entropy(df, ["x0", "x1"], base=base), stats.pc_joint(df, ["x0", "x1"])
             elif variant == "conditional":
                 got, pcv = entropy.renyi2_entropy(df, "x0", by="grp", base=base), stats.pc_conditional(df, "grp", "x0")
+            elif variant == "conditional_joint":
+                got, pcv = entropy.renyi2_entropy(df, ["x0", "x1"], by="grp", base=base), stats.pc_conditional(df, "grp", ["x0", "x1"])
             else:  # base None -> natural log
                 got, pcv = entropy.renyi2_entropy(df, "x0", base=None), stats.pc(df["x0"])
                 if not so.is_symbolic(pcv) and pcv == 0:
@@ -374,6 +378,11 @@ def _replay_entropy(which, variant):
                     got, want = entropy.renyi2_entropy(df, ["x0", "x1"], base=base), -np.log(stats.pc_joint(df, ["x0", "x1"])) / np.log(base)
                 elif variant == "conditional":
                     got, want = entropy.renyi2_entropy(df, "x0", by="grp", base=base), -np.log(stats.pc_conditional(df, "grp", "x0")) / np.log(base)
+                elif variant == "conditional_joint":
+                    # independent of pc_conditional: weighted mean of the per-group joint coincidence fractions
+                    groups = [rows for _, rows in _groups(keys) if len(rows) > 1]
+                    pcj = sum(float(_pc_rows(feats, rows)) for rows in groups) / len(groups) if groups else float("nan")
+                    got, want = entropy.renyi2_entropy(df, ["x0", "x1"], by="grp", base=base), -np.log(pcj) / np.log(base)
                 else:
                     got, want = entropy.renyi2_entropy(df, "x0", base=None), -np.log(stats.pc(df["x0"]))
             elif variant == "single":
@@ -404,7 +413,7 @@ def conditions(tier):
                 continue
             out.append(Condition(f"C13/pcDelta_{form}/rows={nrows}", _body_delta(nrows, form), _replay_delta(nrows, form), budget=600, models=M,
                                  bounds=f"{nrows} rows in two symbolic groups, one-letter sequences, real Levenshtein metric, {form}"))
-    for which, variants in (("renyi2", ("single", "joint", "conditional", "natural")), ("stdrenyi2", ("single", "joint"))):
+    for which, variants in (("renyi2", ("single", "joint", "conditional", "conditional_joint", "natural")), ("stdrenyi2", ("single", "joint"))):
         for v in variants:
             out.append(Condition(f"C13/{which}_entropy/{v}", _body_entropy(which, v), _replay_entropy(which, v), budget=900, models=M,
                                  bounds="4 rows, 2 symbolic groups, 2 feature columns, symbolic base > 1"))
